@@ -75,6 +75,23 @@ class Frame:
         return None
 
 
+class WithSignal(Exception):
+    """return/break/continue leaving the body of a `with` whose manager is a generator-based
+    @contextmanager function of the repository: carried through the generator's frames (its
+    finally blocks run), unwrapped by s_With."""
+
+    def __init__(self, sig):
+        self.sig = sig
+
+
+class VGenCtx(V):
+    """Result of calling a repository function decorated with @contextmanager (not started yet)."""
+    kind = "genctx"
+
+    def __init__(self, qual, mod, cls_qual, fn, args, kwargs):
+        self.qual, self.mod, self.cls_qual, self.fn, self.args, self.kwargs = qual, mod, cls_qual, fn, args, kwargs
+
+
 class VEnum(V):
     kind = "enum"
 
@@ -179,7 +196,7 @@ class Ctx:
                 raise Infeasible()
         return taken
 
-    def oblige(self, name: str, goal, info=None):
+    def oblige(self, name: str, goal, info=None, assume=True):
         goal = z3.simplify(goal)
         if not z3.is_true(goal):
             labels = [f"{lab}={c}" for (c, n, lab) in self.decisions]
@@ -187,6 +204,8 @@ class Ctx:
             self.engine.add_obligation(ob)
         else:
             self.engine.trivial += 1
+        if not assume:
+            return      # the path continues without the assumption (obligations of other properties lie beyond it)
         # continue under the assumption that it holds (assert-then-assume)
         if z3.is_false(goal):
             raise PathEnd()
@@ -534,6 +553,9 @@ class Engine:
             mod, cls, fn = self.repo.find(qual)
             cls_qual = f"{mod.name}:{cls.name}" if cls is not None else None
             is_async = isinstance(fn, ast.AsyncFunctionDef)
+            decos = [d.id if isinstance(d, ast.Name) else getattr(d, "attr", "") for d in fn.decorator_list]
+            if "contextmanager" in decos:
+                return VGenCtx(qual, mod, cls_qual, fn, args, kwargs)
             if is_async:
                 def run(c, _fn=fn):
                     fr = Frame(mod, qual, cls_qual)
@@ -798,7 +820,7 @@ class Engine:
                     fr.locals["__active_exc__"] = saved
             else:
                 self.exec_block(ctx, fr, s.orelse)
-        except (PyRaise, ReturnSig, BreakSig, ContinueSig):
+        except (PyRaise, ReturnSig, BreakSig, ContinueSig, WithSignal):
             run_finally()
             raise
         # Infeasible / PathEnd / Unsupported propagate without running finally
@@ -858,6 +880,8 @@ class Engine:
             return self.s_With(ctx, fr, outer)
         item = s.items[0]
         cm = ctx.force(self.eval(ctx, fr, item.context_expr))
+        if isinstance(cm, VGenCtx):
+            return self.with_generator(ctx, fr, s, item, cm)
         enter = self.models.get(("with", getattr(cm, "cls", None) or getattr(cm, "dotted", None) or cm.kind))
         if enter is None:
             raise Unsupported(f"with on {cm!r} line {s.lineno}")
@@ -866,13 +890,47 @@ class Engine:
             self.assign(ctx, fr, item.optional_vars, val)
         try:
             self.exec_block(ctx, fr, s.body)
-        except (PyRaise, ReturnSig, BreakSig, ContinueSig):
+        except (PyRaise, ReturnSig, BreakSig, ContinueSig, WithSignal):
             exit_fn(ctx)
             raise
         else:
             exit_fn(ctx)
 
     s_AsyncWith = s_With
+
+    def with_generator(self, ctx, fr, s, item, cm: VGenCtx):
+        """`with f(...) as v: body` for a generator-based @contextmanager f of the repository: f's body is
+        executed; at its single `yield x` the with-body runs (v = x); an exception of the with-body is
+        raised at the yield (contextlib's gen.throw), return/break/continue resume the generator normally
+        after the yield... contextlib closes the generator instead: both run the enclosing finally blocks,
+        which is all the code after the yield that this subset admits (checked: yield inside try/finally or last)."""
+        state = {"yields": 0}
+        gfr = Frame(cm.mod, cm.qual, cm.cls_qual)
+
+        def on_yield(val):
+            state["yields"] += 1
+            if state["yields"] > 1:
+                raise Unsupported(f"{cm.qual}: generator context manager yields twice")
+            if item.optional_vars is not None:
+                self.assign(ctx, fr, item.optional_vars, val)
+            try:
+                self.exec_block(ctx, fr, s.body)
+            except (ReturnSig, BreakSig, ContinueSig) as sig:
+                raise WithSignal(sig)
+        gfr.on_yield = on_yield
+        try:
+            self.run_body(ctx, gfr, cm.fn, cm.args, cm.kwargs)
+        except WithSignal as w:
+            raise w.sig
+        if state["yields"] != 1:
+            raise PyRaise(VExc("RuntimeError", VStr("generator didn't yield"), origin=cm.qual))
+
+    def e_Yield(self, ctx, fr, e):
+        cb = getattr(fr, "on_yield", None)
+        if cb is None:
+            raise Unsupported(f"yield outside a @contextmanager function (line {e.lineno} of {fr.qual})")
+        cb(self.eval(ctx, fr, e.value) if e.value is not None else NONE)
+        return NONE
 
     # ---- loops -----------------------------------------------------------------
     def assigned_names(self, body):
